@@ -41,7 +41,7 @@ def main(argv=None):
     seed = int(os.environ.get("VERIF_SEED", "0") or 0)
     props = ALL if a.prop == "all" else [a.prop.upper()]
     rc = 0
-    if a.repo and os.path.realpath(a.repo) != os.path.realpath("/repo"):
+    if (a.repo and os.path.realpath(a.repo) != os.path.realpath("/repo")) or os.environ.get("VERIF_SCRATCH_EVIDENCE"):
         # a scratch copy is being analysed: /verif/evidence only ever describes /repo itself
         import sa.report as _rep
         import tempfile
